@@ -21,6 +21,7 @@ import (
 	"verifharness/metadata"
 	"verifharness/peerfsm"
 	"verifharness/piecestore"
+	"verifharness/privacyb"
 	"verifharness/sched"
 	"verifharness/trackerb"
 	"verifharness/upload"
@@ -32,6 +33,7 @@ var bindings = map[string]func(in []byte) any{
 	"piecestore": piecestore.Replay,
 	"webseed":    webseedb.Handle,
 	"http":       httpb.Handle,
+	"privacy":    privacyb.Handle,
 	"crypto":     cryptob.Handle,
 	"live":       live.Handle,
 	"peerfsm":    peerfsm.Replay,
